@@ -21,17 +21,28 @@ def _mkbytes(items):
         return from_items(items)
     return bytes(items)
 
+def hash_uf_tail(n_in, n_out, tag):
+    """H(prefix of n_in bytes || M) for the abstract message M identified by a 64-bit token: any function of both"""
+    key = (n_in, n_out, tag, 'T')
+    if key not in _HASHES:
+        def impl(*a, n_out=n_out, tag=tag):
+            return tuple(hashlib.shake_128(tag.encode() + b'T' + bytes(a[:-1]) + a[-1].to_bytes(8, 'big')).digest(n_out))
+        _HASHES[key] = Opaque('absH_%sT_%d_%d' % (tag, n_in, n_out), impl, [8] * n_in + [64], (8,) * n_out)
+    return _HASHES[key]
+
 class AbstractHash(object):
     """h(m): n_out bytes, any function of the message bytes; blocksize in bits"""
     def __init__(self, block_bytes, out_bytes, tag='h'):
         self.blocksize = 8 * block_bytes; self.outlen = out_bytes; self.tag = tag
         self.calls = []
     def spec(self, m):
+        from pyvc.sbytes import SBytesT
+        if isinstance(m, SBytesT):
+            return list(hash_uf_tail(len(m.items), self.outlen, self.tag)(*m.items, m.tail))
         m = list(m)
         return list(hash_uf(len(m), self.outlen, self.tag)(*m))
     def __call__(self, m):
-        self.calls.append(len(m))
-        return _mkbytes(self.spec(list(m)))
+        return _mkbytes(self.spec(m))
 
 _CIPH = {}
 def cipher_ufs(bs, tag):
